@@ -185,6 +185,20 @@ func (g *G) outputExpr() string {
 		if n == 1 && g.R.Chance(1, 2) {
 			return pre + g.as() + member()
 		}
+		if g.R.Chance(1, 3) {
+			// an asterisk among other columns, as many columns as named members: the counts
+			// agree, the asterisk still stands for an unknown number of columns
+			g.count("out:(t.*, c) AS (&T.m, &T.n)")
+			cols := []string{pre}
+			for len(cols) < 2 || g.R.Chance(1, 3) {
+				cols = append(cols, g.column())
+			}
+			if g.R.Chance(1, 2) {
+				cols[0], cols[len(cols)-1] = cols[len(cols)-1], cols[0]
+			}
+			k := len(cols)
+			return "(" + strings.Join(cols, g.sep()) + ")" + g.as() + g.list(k, member)
+		}
 		if g.R.Chance(1, 2) {
 			pre = "(" + pre + ")"
 		}
